@@ -2,6 +2,7 @@
 checks) returning partial results; `witness`: callable(violation, tier) -> witness dict."""
 import json
 import os
+import time
 
 from . import engine, kani
 
@@ -337,6 +338,108 @@ def crash_search(tier):
     return n, failing
 
 
+def scale_search(tier, limit_s=120):
+    """Runs replay `u5e` (token-level texts; depth-64 and 64-KiB-class inputs) in subprocesses under a 4 GiB
+    address-space limit and a per-case time limit.  A case that panics, kills the process or does not return
+    within the limit is a failing instance.  Returns (n_cases, {descriptor: how}, {descriptor: ms})."""
+    import resource
+    import subprocess
+    import threading
+    import queue
+    import tempfile
+    from . import check
+    exe = check.build_replay()
+    mode = [] if tier == 'thorough' else ['quick']
+
+    def lim():
+        resource.setrlimit(resource.RLIMIT_AS, (4 << 30, 4 << 30))
+    n = json.loads(subprocess.run([exe, 'u5e', 'list'] + mode, capture_output=True, text=True).stdout)['cases']
+    failing, times = {}, {}
+    frm = 0
+    while frm < n:
+        errf = tempfile.TemporaryFile(mode='w+')
+        p = subprocess.Popen([exe, 'u5e', 'run', str(frm)] + mode, stdout=subprocess.PIPE, stderr=errf, text=True, preexec_fn=lim)
+        q = queue.Queue()
+
+        def reader(p=p, q=q):
+            for ln in p.stdout:
+                q.put(ln.rstrip('\n'))
+            q.put(None)
+        threading.Thread(target=reader, daemon=True).start()
+        cur = None
+        done = False
+        while True:
+            try:
+                ln = q.get(timeout=limit_s if cur is None else max(0.1, cur[2] + limit_s - time.time()))
+            except queue.Empty:
+                p.kill()
+                if cur is None:
+                    raise engine.Undecided('replay-failed', 'scale search produced no output')
+                failing[cur[1]] = 'no return within %d s' % limit_s
+                frm = cur[0] + 1
+                break
+            if ln is None:
+                p.wait()
+                if not done:
+                    if cur is None:
+                        raise engine.Undecided('replay-failed', 'scale search died before the first case')
+                    errf.seek(0)
+                    how = (errf.read().strip().splitlines() or ['killed'])[-1][:80]
+                    failing[cur[1]] = 'process died (rc=%s): %s' % (p.returncode, how)
+                    frm = cur[0] + 1
+                break
+            if ln == '@done':
+                done = True
+                frm = n
+            elif ln.startswith('@'):
+                i, d = ln[1:].split(' ', 1)
+                cur = (int(i), d, time.time())
+            elif ln.startswith('='):
+                _i, ms, d = ln[1:].split(' ', 2)
+                times[d] = int(ms)
+            elif ln.startswith('!'):
+                j = json.loads(json.loads(ln.split(' ', 1)[1]))
+                failing[j['case']] = 'panic: ' + j['panic'][:80]
+        errf.close()
+    return n, failing, times
+
+
+def extra_c05_scale(prop, tier, seed):
+    """Bounded stand-in (labelled, never counted): the public entry points (parse, checked parse, format, JSON
+    and CBOR validation) return normally and within 120 s (debug build, overflow checks on) on every text of
+    <= 3 tokens out of 40 (quick: every 5th three-token text) and on inputs at the limits C05 names: nesting
+    depth 64 (17 shapes), sizes up to the 64 KiB class (23 shapes), every control operator x 6 targets x 15 arguments x 30
+    documents and every prelude name x 30 documents (sizes: many rules / choices / members, long
+    arrays and maps against greedy and wildcard groups, long literals, comments, regexp).  Instances failing on
+    the unchanged tree are recorded in known_instances_C05_scale.json (known findings F24, F19)."""
+    n, failing, times = scale_search(tier)
+    known = json.load(open(os.path.join(engine.VERIF, 'known_instances_C05_scale.json')))
+    new = sorted(k for k in failing if k not in known)
+    slow = sorted(times.items(), key=lambda kv: -kv[1])[:5]
+    res = {'violations': [], 'bounded': [{'check': 'entry points return normally and within 120 s on token-level texts and depth-64 / 64-KiB-class inputs',
+                                          'bound': '%d cases (%s tier), 120 s per case (slowest case on the unchanged tree: ~5 s), 4 GiB address space' % (n, tier), 'failing_instances': len(failing),
+                                          'recorded_as_known': len(failing) - len(new), 'new': len(new),
+                                          'slowest_ms': [{'case': k, 'ms': v} for k, v in slow]}]}
+    for fid, label in (('F24', 'entry-points:return-normally:recorded-generic-forwarding-instances'),
+                       ('F19', 'entry-points:return-normally:recorded-uriparse-panic-instances')):
+        ks = sorted(k for k in failing if known.get(k) == fid)
+        if ks:
+            w = {'case': ks[0]}
+            res['violations'].append({
+                'unit': 'U5e', 'label': label, 'fn': 'validate_json_from_str / validate_cbor_from_slice',
+                'message': '%d recorded instances still fail (%s)' % (len(ks), failing[ks[0]]), 'clause': [], 'engine': 'replay',
+                'verifier_output': json.dumps(ks[:10]),
+                'fixed_witness': {'found': True, 'witness': w, 'real': failing[ks[0]], 'replay_args': ['u5e', 'replay', json.dumps(w)]}})
+    if new:
+        w = {'case': new[0]}
+        res['violations'].append({
+            'unit': 'U5e', 'label': 'entry-points:return-normally-in-bounded-time', 'fn': 'public entry points',
+            'message': '%d inputs on which an entry point panics, dies or does not return within 120 s and that are NOT recorded (first: %s: %s)' % (len(new), new[0], failing[new[0]]),
+            'clause': [], 'engine': 'replay', 'verifier_output': json.dumps({k: failing[k] for k in new[:20]}),
+            'fixed_witness': {'found': True, 'witness': w, 'real': failing[new[0]], 'replay_args': ['u5e', 'replay', json.dumps(w)]}})
+    return res
+
+
 def extra_c05_crash(prop, tier, seed):
     """Bounded stand-in (labelled, never counted): the public entry points (parse, checked parse, format, JSON
     and CBOR validation) are run on 616 two-rule schemas (aliases, cycles, every control operator, huge
@@ -407,8 +510,9 @@ def extra_c09_ops(prop, tier, seed):
 
 def extra_c04_mirror(prop, tier, seed):
     """Bounded stand-in (labelled, never counted) for C04 on the REAL validators: JSON verdict == CBOR verdict
-    for every JSON-expressible value out of 12 x ~320 schemas (types, two-way choices, .and/.within,
-    comparison controls, prelude names, ranges, .size/.regexp, small arrays and maps).  Instances that
+    for every JSON-expressible value out of 22 (incl. non-ASCII text, integers at the byte-width boundaries) x ~370
+    schemas (types, two-way choices, .and/.within, comparison controls, prelude names, ranges, .size 0..16 on tstr and
+    uint, .regexp, small arrays and maps).  Instances that
     disagree on the unchanged tree are recorded in known_instances_C04.json (known finding F21)."""
     out, err = _replay(['u5d', 'findmirror'], timeout=3000)
     if out is None:
@@ -417,10 +521,10 @@ def extra_c04_mirror(prop, tier, seed):
     failing = out.get('failing', [])
     new = [f for f in failing if f not in known]
     res = {'violations': [], 'bounded': [{'check': 'JSON verdict == CBOR verdict on the same value (real validators)',
-                                          'bound': '~320 schemas x 12 JSON-expressible values', 'comparisons': out.get('tried'),
+                                          'bound': '~370 schemas x 22 JSON-expressible values', 'comparisons': out.get('tried'),
                                           'disagreeing_instances': len(failing), 'recorded_as_known_F21': len(failing) - len(new), 'new': len(new)}]}
     if failing and len(new) < len(failing):
-        w = {'id': 'mirror##t = int##18446744073709551615'}
+        w = {'id': 'mirror##t = number .gt 1.5##255'}
         res['violations'].append({
             'unit': 'U5d', 'label': 'mirror:recorded-instances', 'fn': 'JSONValidator / CBORValidator',
             'message': '%d recorded JSON/CBOR disagreements still occur' % (len(failing) - len(new)), 'clause': [], 'engine': 'replay',
@@ -784,10 +888,10 @@ PROPS = {
     },
     'C05': {
         'vx': ['U1', 'U3', 'U7'],
-        'extra': [extra_c05_crash],
+        'extra': [extra_c05_crash, extra_c05_scale],
         'witness': witness_c05,
         'technique': 'Verus: allocation-size obligations injected at every allocation site found by token scan, decreases clauses, overflow / index / unwrap / library-precondition obligations on every function under contract',
-        'level_text': 'Partial: for the functions under contract - the eight CBOR decoder functions, the three parse-error range functions and the greedy occurrence loop of the array matcher in both validators (unit U7: terminates also for zero-width iterations such as [* ()], cursor stays inside the array, no counter overflow - with one iteration abstracted by a stub whose assumed contract is that the cursor never moves backwards or past the end) - Verus proves (a) every allocation whose size is a run-time value requests at most a constant (the "length in a CBOR head is never trusted for allocation" clause; sites re-discovered on every run), (b) termination of every loop and of the mutual recursion, (c) absence of arithmetic overflow, out-of-bounds indexing, failing unwrap and violated library preconditions (e.g. ciborium push() with a header already buffered, read_exact with a buffered header - both panic). Found and fixed: allocation of 2 TiB from 9b 00 00 00 10 00 00 00 00 (F3). NOT decided deductively: polynomial time, stack depth (recursion on nesting), the pest parser, the validators, Display. For the entry points as a whole only a bounded crash search runs (labelled bounded, not counted): 616 two-rule schemas x small documents through parse / checked parse / format / JSON and CBOR validation in subprocesses. It found F12 (.plus overflow, fixed), F13 (tag-1 epoch unwrap, fixed) and two defects recorded as known findings instance by instance: F9 (cyclic alias reached through a control operator, unwrap or generic overflows the stack: 1425 instances) and F19 (uriparse panics on some strings: 14 instances).',
+        'level_text': 'Partial: for the functions under contract - the eight CBOR decoder functions, the three parse-error range functions and the greedy occurrence loop of the array matcher in both validators (unit U7: terminates also for zero-width iterations such as [* ()], cursor stays inside the array, no counter overflow - with one iteration abstracted by a stub whose assumed contract is that the cursor never moves backwards or past the end) - Verus proves (a) every allocation whose size is a run-time value requests at most a constant (the "length in a CBOR head is never trusted for allocation" clause; sites re-discovered on every run), (b) termination of every loop and of the mutual recursion, (c) absence of arithmetic overflow, out-of-bounds indexing, failing unwrap and violated library preconditions (e.g. ciborium push() with a header already buffered, read_exact with a buffered header - both panic). Found and fixed: allocation of 2 TiB from 9b 00 00 00 10 00 00 00 00 (F3). NOT decided deductively: polynomial time, stack depth (recursion on nesting), the pest parser, the validators, Display. For the entry points as a whole only a bounded crash search runs (labelled bounded, not counted): 616 two-rule schemas x small documents through parse / checked parse / format / JSON and CBOR validation in subprocesses. It found F12 (.plus overflow, fixed), F13 (tag-1 epoch unwrap, fixed) and two defects recorded as known findings instance by instance: F9 (cyclic alias reached through a control operator, unwrap or generic overflows the stack: 1425 instances) and F19 (uriparse panics on some strings: 14 instances). A second bounded search (labelled bounded, not counted) runs the same entry points with a 120 s limit per case on every text of <= 3 tokens out of 40 and on inputs at the limits the property names - nesting depth 64 in 17 shapes, sizes up to the 64 KiB class in 23 shapes; it found F25 (formatter exponential in nesting depth, fixed) and F24 (a generic parameter forwarded under its own name overflows the stack in both validators; known finding, 2 recorded instances).',
         'level_note': 'Trusted: as for C11 and C15. Only functions under contract are covered; C05 as stated quantifies over every entry point, most of which are outside the verifiers reach (see DESIGN.md 5).',
         'design_ref': 'DESIGN.md 4 U1/U3',
         'scope': 'panic/abort/termination obligations of the functions under contract in U1 and U3',
